@@ -2,6 +2,7 @@
 import struct, math, cmath
 from lib import core
 from lib.prop import Prop
+from fractions import Fraction
 
 
 def f_of_bits(b, dbl):
@@ -109,6 +110,39 @@ class C19(Prop):
                     ctx.violate(f"dsp:fir-conv:{d}", f"FIR<{'double' if d else 'float'}> output {n} on '{name}' = {fa[n]!r}, exact convolution = {float(ex)!r}",
                                 {"stream": "dsp", "ops": [f"fir {d} " + " ".join(map(str, xs[:n + 1]))]})
                     break
+        # other configurations of the same templates: tap counts 1..11 (even and odd), symmetric and asymmetric tap sets; exact convolution oracle
+        gl, gm = [], []
+        tapsets = [[2048, 2048], [1024, 3072, 3072, 1024], [410] * 10, [4096], [4096, -2048, 1024], [100, 2000, 4096, 2000, 100],
+                   [1, 2, 3, 4, 5, 6, 7, 8], [300, -200, 100, 4096, 100, -200, 300, 77, 5, 1, 9]]
+        tapsets += [[rng.randrange(-4096, 4097) for _ in range(n)] for n in (2, 3, 4, 5, 8, 10, 11)]
+        for tp in tapsets:
+            xs = [rng.randrange(-3 * 4096, 3 * 4096) for _ in range(60)] + [999999] + [4096] + [0] * 15 + [rng.randrange(-4096, 4096) for _ in range(30)]
+            for d in (0, 1):
+                gl.append(f"firg {d} {len(tp)} " + " ".join(map(str, tp)) + " " + " ".join(map(str, xs))); gm.append((d, tp, xs))
+        gout = ctx.run_impl(exe, gl, "dsp-generic")
+        gmod = ctx.run_model(gl) if ctx.model_ok else [None] * len(gl)
+        for ln, a, b, (d, tp, xs) in zip(gl, gout, gmod, gm):
+            ctx.count(ln, nontrivial=True)
+            ctx.stat(f"firg:N{len(tp)}:{'sym' if tp == tp[::-1] else 'asym'}")
+            fa = [f_of_bits(int(x), d) for x in a.split()] if a and a[0] not in "<b" else []
+            # exact oracle: convolution from the zero state, restarted at the reset marker
+            seg, k, bad = [], 0, None
+            eps = 2.0 ** -52 if d else 2.0 ** -23
+            for x in xs:
+                if x == 999999:
+                    seg = []
+                    continue
+                seg.append(x)
+                ex = sum(Fraction(tp[i], 4096) * Fraction(seg[len(seg) - 1 - i], 4096) for i in range(len(tp)) if len(seg) - 1 - i >= 0)
+                ctx.evaluations += 1
+                if k >= len(fa) or abs(Fraction(fa[k]) - ex) > Fraction(len(tp) * eps * 12):
+                    bad = (k, fa[k] if k < len(fa) else None, float(ex)); break
+                k += 1
+            if bad:
+                ctx.violate(f"dsp:firg:{d}:N{len(tp)}", f"BaseFirFilter<{'double' if d else 'float'},{len(tp)}> with taps {tp}/4096: output {bad[0]} = {bad[1]!r}, convolution = {bad[2]!r}",
+                            {"stream": "dsp-generic", "ops": [ln]})
+            elif b is not None and a != b:
+                ctx.stat("firg:within-tolerance-not-bit-exact")
         # sliding DFT vs direct DFT of the latest window
         sd = []
         for name, xs in seqs:
@@ -116,12 +150,19 @@ class C19(Prop):
                 continue
             for d in (0, 1):
                 sd.append((name, d, xs, f"sdft {d} " + " ".join(map(str, xs[:1500]))))
+        # several detector instances of one instantiation with different frequencies in the same process: the reported one is {2400, 3600}
+        for name, xs in seqs[:4]:
+            if 999999 in xs:
+                continue
+            for d in (0, 1):
+                sd.append((name + "+other-instances", d, xs, f"sdftm {d} 2 1000 2000 5000 3000 " + " ".join(map(str, xs[:1500]))))
         out = ctx.run_impl(exe, [s[3] for s in sd], "sdft")
         for (name, d, xs, ln), o in zip(sd, out):
             v = o.split()
             xs = xs[:1500]
             if len(v) != 4 * len(xs):
                 continue
+            off = 7 if ln.startswith('sdftm') else 2
             ctx.count(ln, nontrivial=True)
             for n in range(130, len(xs), 97):
                 for bi, f in ((0, 2400), (1, 3600)):
@@ -131,7 +172,7 @@ class C19(Prop):
                     ctx.evaluations += 1
                     if abs(abs(complex(re, im)) - abs(direct)) > tol * max(1.0, abs(direct)):
                         ctx.violate(f"dsp:sdft:{d}:{f}", f"sliding DFT<{'double' if d else 'float'}> bin {f} Hz after {n} samples of '{name}': |{abs(complex(re, im))!r}| vs direct DFT |{abs(direct)!r}|",
-                                    {"stream": "sdft", "ops": [" ".join(ln.split()[:n + 3])]})
+                                    {"stream": "sdft", "ops": [" ".join(ln.split()[:n + off + 1])]})
                         break
         ctx.sample({"op": " ".join(lines[0].split()[:10]) + " ...", "impl(bit patterns)": " ".join(impl[0].split()[:4]) + " ..."})
 
